@@ -274,8 +274,61 @@ class OHVMat(Harness):
                         P.prove(P.le(2 * own, got), "ohv>=value-of-a-non-recombinant-doubled-haploid")
 
 
+OPV = "pybrops.breed.prot.sel.prob.OptimalPopulationValueSelectionProblem"
+
+
+class OPVLatent(Harness):
+    """OptimalPopulationValue: latent value of a selection = -ploidy * sum over blocks of the best block value carried by any phase of
+    any selected individual (signed effects, so block values of either sign); for two parents it equals the optimal haploid value of their cross"""
+    name = "opv-definition"
+
+    def modules(self):
+        return [HAPLO, OHV, OPV, PGM, GMOD]
+
+    def inputs(self, mk):
+        n, h, t = self.params["n"], self.params["h"], self.params["t"]
+        return dict(H=mk.real("h", (2, n, h, t), lo=-6, hi=6))
+
+    def call(self, inp, mk):
+        from pybrops.breed.prot.sel.prob.OptimalPopulationValueSelectionProblem import OptimalPopulationValueSubsetSelectionProblem as C
+        from pybrops.breed.prot.sel.prob.OptimalHaploidValueSelectionProblem import OptimalHaploidValueSubsetSelectionProblem as O
+        n, h, t = self.params["n"], self.params["h"], self.params["t"]
+        k = len(self.params["sel"])
+        prob = C(haplomat=inp["H"].copy(), ndecn=k, decn_space=numpy.arange(n), decn_space_lower=numpy.repeat(0, k), decn_space_upper=numpy.repeat(n - 1, k), nobj=t)
+        saved = sym.FORK_MINMAX[0]
+        sym.FORK_MINMAX[0] = False
+        try:
+            lat = prob.latentfn(numpy.array(self.params["sel"]))
+            ohv = O._calc_ohvmat(2, inp["H"].copy(), numpy.array([self.params["sel"]]), mem=None) if k == 2 else None
+        finally:
+            sym.FORK_MINMAX[0] = saved
+        return dict(lat=lat, ohv=ohv, H_after=prob.haplomat)
+
+    def check(self, P, inp, out):
+        n, h, t = self.params["n"], self.params["h"], self.params["t"]
+        sel = self.params["sel"]
+        Hm = inp["H"]
+        for tr in range(t):
+            tot = 0.0
+            for b in range(h):
+                cands = [cell(Hm, ph, i, b, tr) for ph in range(2) for i in sel]
+                best = cands[0]
+                for c in cands[1:]:
+                    best = sym.sv_max(best, c) if isinstance(best, SV) or isinstance(c, SV) else max(best, c)
+                tot = tot + best
+            P.prove(P.eq(cell(out["lat"], tr), -2 * tot), "opv=-ploidy*sum-over-blocks-of-the-best-selected-block-value")
+            if out["ohv"] is not None:
+                P.prove(P.eq(cell(out["ohv"], 0, tr), 2 * tot), "opv-of-two-parents=ohv-of-their-cross")
+        for a, b in zip(cells(out["H_after"]), cells(Hm)):
+            P.prove(P.eq(a, b), "haplotype-values-untouched")
+
+
 def obligations(tier):
     obs = []
+    for sel in ([[0], [2, 0]] if tier == "quick" else [[0], [2, 0], [1, 2], [0, 1, 2], [1, 1]]):
+        obs.append(OPVLatent(n=3, h=2, t=1, sel=sel))
+    if tier == "thorough":
+        obs.append(OPVLatent(n=2, h=3, t=2, sel=[1, 0]))
     layouts = [(2,), (3,), (4,), (2, 2), (3, 1), (3, 2)] if tier == "quick" else \
         [(2,), (3,), (4,), (5,), (2, 2), (3, 2), (2, 3), (1, 3), (3, 3), (2, 2, 1), (2, 2, 2)]
     for sizes in layouts:
@@ -296,6 +349,10 @@ def obligations(tier):
         obs.append(h)
         if tier == "thorough":
             obs.append(OHVMat(sizes=list(sizes), nblk=nb, n=n, nparent=npar, t=t, mem=1, unique=False))
+    # memory chunks that do not divide the number of crosses (a partial last chunk must still be filled)
+    obs.append(OHVMat(sizes=[2], nblk=2, n=3, nparent=2, t=1, mem=2))
+    if tier == "thorough":
+        obs.append(OHVMat(sizes=[3], nblk=2, n=3, nparent=2, t=1, mem=2, unique=False))
     return obs
 
 
